@@ -167,7 +167,11 @@ func (c16) Gen(seed uint64, run int, tier string) *core.Case {
 	case "race":
 		cfg.Instances = 1 + r.IntN(2)
 		c.Cfg = cfg
-		p.Racer = []string{"put", "put", "create-mpu", "complete", "create-bucket"}[r.IntN(5)]
+		p.Racer = []string{"put", "put", "create-mpu", "complete", "create-bucket", "put-twice-versioned", "put-twice-versioned"}[r.IntN(7)]
+		if p.Racer == "put-twice-versioned" {
+			cfg.Versioning = true
+			c.Cfg = cfg
+		}
 		p.HoldsMPU = p.Racer == "complete" || r.IntN(4) == 0
 		p.Size = 1 + pickSize(r, 40000)
 		if r.IntN(2) == 0 {
@@ -523,6 +527,11 @@ func (c16) Exec(c *core.Case) (out *core.Outcome) {
 			mustOK(pr, "part")
 			partETag = pr.Resp.Get("ETag")
 		}
+		if p.Racer == "put-twice-versioned" {
+			mustOK(own().Do(s3c.PutVersioning(b, "Enabled")), "enable versioning")
+		}
+		data2 := s3c.GenData(uint64(p.Size)+7, p.Size+3)
+		var firstPut *env.Result
 		applySched(e.S, &core.Case{Sched: sched})
 		var delRes, upRes *env.Result
 		var racerNewID string
@@ -537,6 +546,9 @@ func (c16) Exec(c *core.Case) (out *core.Outcome) {
 			switch p.Racer {
 			case "put":
 				upRes = cl.Do(s3c.PutObject(b, "obj", data))
+			case "put-twice-versioned":
+				firstPut = cl.Do(s3c.PutObject(b, "obj", data))
+				upRes = cl.Do(s3c.PutObject(b, "obj", data2))
 			case "create-mpu":
 				upRes = cl.Do(s3c.CreateMPU(b, "obj2"))
 				var init s3c.InitiateMPUResult
@@ -565,6 +577,23 @@ func (c16) Exec(c *core.Case) (out *core.Outcome) {
 		desc := fmt.Sprintf("DeleteBucket -> %d %s racing %s -> %d %s (bucket held an upload: %v, %s, %d instances)", delRes.Resp.Status, delRes.Resp.ErrCode(), p.Racer, upRes.Resp.Status, upRes.Resp.ErrCode(), p.HoldsMPU, cfgClass(c.Cfg), len(e.GWs))
 		chk := e.Root()
 		switch p.Racer {
+		case "put-twice-versioned":
+			// every acknowledged upload must still be readable: the newest by key, the replaced one by its version id
+			if upRes.Resp.OK() {
+				g := chk.Do(s3c.GetObject(b, "obj"))
+				if g.Resp.Status != 200 || !bytes.Equal(g.Resp.Body, data2) {
+					o.Violate("delete-race", "C16/race/put-twice-versioned/acknowledged-object-lost", "%s: the second upload was acknowledged but the object now reads %d", desc, g.Resp.Status)
+				}
+			}
+			if firstPut != nil && firstPut.Resp.OK() && (upRes.Resp.OK() || !delRes.Resp.OK()) {
+				if vid := firstPut.Resp.Get("X-Amz-Version-Id"); vid != "" {
+					o.Probe("race_replaced_version_checked")
+					g := chk.Do(s3c.GetObjectVersion(b, "obj", vid))
+					if upRes.Resp.OK() && (g.Resp.Status != 200 || !bytes.Equal(g.Resp.Body, data)) {
+						o.Violate("delete-race", "C16/race/put-twice-versioned/acknowledged-version-lost", "%s: the first upload (version %s) was acknowledged and then replaced; reading that version now gives %d %s", desc, vid, g.Resp.Status, g.Resp.ErrCode())
+					}
+				}
+			}
 		case "put", "complete":
 			if upRes.Resp.OK() {
 				g := chk.Do(s3c.GetObject(b, "obj"))
